@@ -15,7 +15,7 @@ META = dict(
              "NaN stopping (C03)", "float64 rounding of l + xn*(u-l)"],
     stubs=["hash->const for symbolic keys (hashable_ndarray.xxh3_64_hexdigest)", "hashable_ndarray.np_array keeps the SymArray subclass on copy",
            "Variable bounds written into Variable.__dict__ (representation invariant l<=u assumed)"],
-    assumptions=["with round_ints=False the requested integer components are integral (the driver handles integers itself)", "user function and Jacobian are uninterpreted symbols of the physical point", "normalized request components lie in [0,1]", "integer components are requested within [lb-1, ub+1] and not in [-1/2, 0) (rounding to -0.0)",
+    assumptions=["with round_ints=False the requested integer components are integral (the driver handles integers itself)", "user function and Jacobian are uninterpreted symbols of the physical point", "normalized request components lie in [0,1]", "design vectors passed to evaluate_functions lie within the bounds (check_bounds is on)", "integer components are requested within [lb-1, ub+1] and not in [-1/2, 0) (rounding to -0.0)",
                  "integer variables have concrete bounds"],
 )
 
@@ -179,6 +179,10 @@ def h_evaluate_functions(ctx, cfg):
             ctx.assume(ctx.and_(ctx.le(info.lb[j], pe[j]), ctx.le(pe[j], info.ub[j])))
         elif info.kind[j] == "E":
             ctx.assume(ctx.eq(pe[j], info.lb[j]))
+        elif info.kind[j] == "L":
+            ctx.assume(ctx.le(info.lb[j], pe[j]))
+        elif info.kind[j] == "R":
+            ctx.assume(ctx.le(pe[j], info.ub[j]))
     xp = info.phys(ctx, pe, rounding=False) if vec_norm else pe
     want_jac = cfg["jac"]
     outs, jacs = problem.evaluate_functions(design_vector=p, design_vector_is_normalized=vec_norm, output_functions=(),
@@ -231,6 +235,10 @@ def h_fd(ctx, cfg):
             ctx.assume(ctx.and_(ctx.le(0.0, pe[j]), ctx.le(pe[j], 1.0)))
         elif info.kind[j] in "BC":
             ctx.assume(ctx.and_(ctx.le(info.lb[j], pe[j]), ctx.le(pe[j], info.ub[j])))
+        elif info.kind[j] == "L":
+            ctx.assume(ctx.le(info.lb[j], pe[j]))
+        elif info.kind[j] == "R":
+            ctx.assume(ctx.le(pe[j], info.ub[j]))
     if cfg.get("value_first"):
         pf.evaluate(p)
     J = pf.jac(p)
